@@ -21,6 +21,7 @@ import (
 	"fmt"
 	"math/rand"
 	"os"
+	"os/exec"
 	"runtime"
 	"runtime/pprof"
 	"sort"
@@ -942,16 +943,7 @@ func domE2E(r *rand.Rand, seed int64, n int) {
 	}
 	inWorld := 0
 	for i < n {
-		// every fresh target costs the in-memory Atomix client about 10 MB (one in-process connection per
-		// primitive) which it only gives back when closed: start over with a new instance now and then
-		if inWorld >= 80 {
-			w.e.StopControllers()
-			w.e.Atomix.Close()
-			w = newWorld()
-			mkPlain()
-			inWorld = 0
-		}
-		inWorld++
+		_ = inWorld
 		pl := places[r.Intn(len(places))]
 		sync := r.Intn(2) == 0
 		c := e2eCase{sync: sync, waitFor: pl.st, deadline: 2500 * time.Millisecond}
@@ -1138,6 +1130,7 @@ func main() {
 	nWatch := flag.Int("watch", 200, "")
 	nE2E := flag.Int("e2e", 120, "")
 	nStall := flag.Int("stall", 40, "")
+	onlyE2E := flag.Bool("only-e2e", false, "run the end-to-end domain only (child process of a large run)")
 	corpus := flag.String("corpus", "", "")
 	flag.Parse()
 	env.Quiet()
@@ -1145,10 +1138,33 @@ func main() {
 	out = bufio.NewWriterSize(os.Stdout, 1<<20)
 	defer out.Flush()
 	r := rand.New(rand.NewSource(*seed))
+	if *onlyE2E {
+		domE2E(r, *seed, *nE2E)
+		return
+	}
 	domStatus()
 	domLoop(r, *seed, *nLoop, *corpus)
 	domWatch(r, *seed, *nWatch)
-	domE2E(r, *seed, *nE2E)
+	// every fresh target costs the in-memory Atomix client about 10 MB (one in-process connection per primitive)
+	// that it never gives back: large end-to-end runs are split over child processes of 150 cases each
+	if *nE2E <= 150 {
+		domE2E(r, *seed, *nE2E)
+	} else {
+		out.Flush()
+		for c, rest := 0, *nE2E; rest > 0; c, rest = c+1, rest-150 {
+			m := rest
+			if m > 150 {
+				m = 150
+			}
+			cmd := exec.Command(os.Args[0], "-only-e2e", "-seed", fmt.Sprint(*seed*1000+int64(c)+1), "-e2e", fmt.Sprint(m))
+			cmd.Stdout = os.Stdout
+			cmd.Stderr = os.Stderr
+			if err := cmd.Run(); err != nil {
+				fmt.Fprintf(os.Stderr, "c08: end-to-end child %d failed: %v\n", c, err)
+				os.Exit(1)
+			}
+		}
+	}
 	domStall(r, *seed, *nStall)
 	if f := os.Getenv("C08_MEMPROF"); f != "" {
 		if fh, err := os.Create(f); err == nil {
